@@ -128,7 +128,9 @@ func (c *c15) RunCase(w *core.Worker, idx int, seed uint64, res *core.CaseResult
 	owners := []struct {
 		name string
 		prio int32
-	}{{"oa", 10}, {"ob", 20}, {"oc", 30}}
+	}{{"oa", 10}, {"ob", 20}, {"oc", 30}, {"od", 30}}
+	// (od has the priority of oc: two intents of equal precedence; od only joins paths that a better intent defines as
+	// well, so that the ruling intent is never a tie)
 	// several cycles on ONE datastore object: between the cycles the stores are rewritten (values change, paths
 	// disappear from running, intents come and go), so anything the datastore carries over from one cycle to the next shows
 	multi, missing := false, false
@@ -170,6 +172,11 @@ func (c *c15) RunCase(w *core.Worker, idx int, seed uint64, res *core.CaseResult
 			for i := 0; i < nint; i++ {
 				o := owners[ownerPerm[i]]
 				vals[o.name] = rng.Intn(3)
+			}
+			if _, a := vals["oa"]; a || func() bool { _, b := vals["ob"]; return b }() {
+				if rng.Chance(1, 3) {
+					vals["od"] = rng.Intn(3)
+				}
 			}
 			// running: 0 agrees with ruler, 1 differs from all, 2 agrees with some value, 3 missing
 			rmode := rng.Intn(4)
